@@ -1,0 +1,23 @@
+//go:build verif
+
+// Verification shim for property C14, part 2 (add-only, build tag "verif"): lets the harness hold the
+// prepared-statement cache's own mutex for a moment, i.e. freeze the cache at the point where the next
+// execIfMissing / remove / evictPreparedID would run, and look at the cache while holding it.
+
+package gocql
+
+// VerifC14Lock acquires session.stmtsLRU.mu.
+func VerifC14Lock(s *Session) { s.stmtsLRU.mu.Lock() }
+
+// VerifC14Unlock releases session.stmtsLRU.mu.
+func VerifC14Unlock(s *Session) { s.stmtsLRU.mu.Unlock() }
+
+// VerifC14SnapshotLocked is VerifC14Snapshot for a caller that holds the mutex (VerifC14Lock).
+func VerifC14SnapshotLocked(s *Session) []VerifC14Flight {
+	keys, vals := s.stmtsLRU.lru.VerifEntries()
+	out := make([]VerifC14Flight, len(keys))
+	for i := range keys {
+		out[i] = verifC14Describe(keys[i], vals[i])
+	}
+	return out
+}
